@@ -1367,3 +1367,63 @@ func closeWithBacklog(c *Ctx) {
 	}
 	c.DistinctCase("close-with-backlog")
 }
+
+// refilterAtParentClose: Refilter called while the node is between seeing its
+// parent close and marking itself as shutting down (its goroutine held at a
+// log call there; the component's log calls n = 1..12 after the Close are all
+// tried, no text is looked at).  Whatever the moment, Refilter RETURNS once the
+// node has shut down — with nil or with an error — and nothing is left behind.
+func refilterAtParentClose(c *Ctx) {
+	for n := 1; n <= 12; n++ {
+		what := fmt.Sprintf("Refilter on a filtered subscription whose parent has just closed, the component held at its log call %d after the Close", n)
+		c.Now(what)
+		var problems []string
+		dl := sched.Bubble(c.T, func() {
+			srv := fakeapi.New()
+			srv.Set(1, 1, labSets[1], 1)
+			ct := newCtlWith(srv, c.Seed+int64(n), 0, 1000000*time.Second, nil)
+			sched.Settle()
+			fs, err := ct.c.SubscribeWithFilter((&Filt{Tag: FLabels, Map: Map{{1, 1}}}).Go())
+			if err != nil {
+				problems = append(problems, "SubscribeWithFilter failed")
+				ct.c.Close()
+				return
+			}
+			go func() {
+				for range fs.Events() {
+				}
+			}()
+			sched.Settle()
+			release, _ := ct.pert.HoldNth("publisher", n)
+			ct.c.Close()
+			sched.Settle()
+			returned := make(chan error, 1)
+			go func() { returned <- fs.Refilter((&Filt{Tag: FNull}).Go()) }()
+			sched.Settle()
+			release()
+			sched.Settle()
+			time.Sleep(2 * time.Second)
+			sched.Settle()
+			select {
+			case <-returned:
+			default:
+				problems = append(problems, "Refilter has not returned 2 s after the node's parent closed and the node shut down")
+			}
+			if !isClosed(fs.Done()) {
+				problems = append(problems, "the filtered subscription is not done 2 s after its controller was closed")
+			}
+		})
+		c.Rep.Evaluations++
+		replay := map[string]interface{}{"scenario": what, "n": n}
+		if dl != "" {
+			replay["deadlock"] = dl
+			if len(problems) == 0 {
+				c.Violation("", "goroutines left blocked (bubble deadlock): "+what, replay)
+			}
+		}
+		for _, p := range problems {
+			c.Violation("", p+" ["+what+"]", replay)
+		}
+		c.DistinctCase(fmt.Sprint("refilter-at-parent-close-", n))
+	}
+}
